@@ -100,8 +100,9 @@ InitOb(p) ==
     tl   |-> [t \in 1..Len(Q.threads) |-> [k \in Q.tls |-> -1]],
     tli  |-> [k \in Q.tls |-> 0],                       \* initialisations of key k (over all threads)
     \* lazy statics: published instance (-1: none), instances constructed so far, instances dropped early
-    lz   |-> [z \in Q.lzs |-> [id |-> -1, ninit |-> 0, lost |-> 0, view |-> BotFor(p)]],
+    lz   |-> [z \in Q.lzs |-> [id |-> -1, ninit |-> 0, lost |-> 0, view |-> BotFor(p), wt |-> 0, wclk |-> 0]],
     lzmine |-> [t \in 1..Len(Q.threads) |-> -1],
+    lzw  |-> [t \in 1..Len(Q.threads) |-> 0],            \* clock of the write into the instance under construction
     \* futures: AtomicWaker slot (thread whose block_on waker is registered, 0: none); per thread the
     \* Notify behind its block_on waker, and the number of polls of the block_on in progress
     aw   |-> [w \in Q.aws |-> 0],
@@ -252,10 +253,12 @@ Cas(t, ins, me) ==
             /\ UNCHANGED <<scv, ob, sub, st, cells>>
 
 \* await: `while x.load(ord) == 0 { yield_now() }` as one blocking read of a non-zero message
-AwaitReadable(me, x) == {i \in Readable(me, x) : mo[x][i].val # 0}
+\* (ins.v = 0: until non-zero; otherwise: until equal to ins.v)
+AwaitOk(ins, val) == IF ins.v = 0 THEN val # 0 ELSE val = ins.v
+AwaitReadable(me, ins) == {i \in Readable(me, ins.o) : AwaitOk(ins, mo[ins.o][i].val)}
 Await(t, ins, me) ==
   LET x == ins.o IN
-  \E i \in AwaitReadable(me, x) :
+  \E i \in AwaitReadable(me, ins) :
      /\ SetMe(t, ReadMsg(me, x, i, EffAcq(ins.ord)))
      /\ Ret(t, mo[x][i].val)
      /\ ash' = [ash EXCEPT ![x].ld[t] = Clk(me, t)]
@@ -318,6 +321,12 @@ Wr(t, ins, me) ==
   /\ CellWrite(t, ins.o, me)
   /\ SetMe(t, me) /\ NoRet /\ Adv(t) /\ UnchMem
   /\ UNCHANGED <<scv, ob, sub, st, ash>>
+
+\* a read of the cell from inside its own write section (or the reverse): a usage error loom detects
+\* with an assertion; the model must fail with it (and not abort the process)
+NestedCell(t, ins, me) ==
+  /\ end' = "usage"
+  /\ UNCHANGED <<pc, regs, tv, scv, ob, sub, st>> /\ UnchMem /\ UnchRace
 
 (* -------------------------------------------------------------- threads *)
 Plain(t, me) == /\ SetMe(t, me) /\ Adv(t) /\ NoRace /\ UnchMem /\ UnchRace /\ UNCHANGED <<scv, sub>>
@@ -467,7 +476,9 @@ CanNWait(n) == ob.ntf[n].flag \/ (NotifySpur /\ ~ob.ntf[n].spurred)
 
 NNotify(t, ins, me) ==
   LET n == ins.o IN
-  /\ ob' = [ob EXCEPT !.ntf[n].flag = TRUE, !.ntf[n].view = JoinV(@, me.cur)]
+  \* which notifiers a woken waiter synchronises with when notifications coalesce is not documented:
+  \* strongest reading all of them (loom accumulates), weakest only the last one
+  /\ ob' = [ob EXCEPT !.ntf[n].flag = TRUE, !.ntf[n].view = IF Strong THEN JoinV(@, me.cur) ELSE me.cur]
   /\ Plain(t, me) /\ NoRet /\ UNCHANGED st
 
 (* -------------------------------------------------------------- channel *)
@@ -570,7 +581,8 @@ LzGetSimple(t, ins, me) ==
   IF r.id # -1
   THEN /\ LzBase(t, AcqV(me, r.view)) /\ Adv(t) /\ Ret(t, r.id) /\ NoRace /\ UNCHANGED <<cells, ob, sub>>
   ELSE /\ LzInitWrite(t, z, me)
-       /\ ob' = [ob EXCEPT !.lz[z] = [id |-> r.ninit, ninit |-> r.ninit + 1, lost |-> r.lost, view |-> me.cur]]
+       /\ ob' = [ob EXCEPT !.lz[z] = [id |-> r.ninit, ninit |-> r.ninit + 1, lost |-> r.lost, view |-> me.cur,
+                                      wt |-> t, wclk |-> Clk(me, t)]]
        /\ LzBase(t, me) /\ Adv(t) /\ Ret(t, r.ninit) /\ UNCHANGED sub
 \* initialiser that yields (ins.k = "yield"): construct, (other threads may run), then publish or discard
 LzGetRacy(t, ins, me) ==
@@ -579,7 +591,7 @@ LzGetRacy(t, ins, me) ==
   THEN IF r.id # -1
        THEN /\ LzBase(t, AcqV(me, r.view)) /\ Adv(t) /\ Ret(t, r.id) /\ NoRace /\ UNCHANGED <<cells, ob, sub>>
        ELSE /\ LzInitWrite(t, z, me)
-            /\ ob' = [ob EXCEPT !.lz[z].ninit = @ + 1, !.lzmine[t] = r.ninit]
+            /\ ob' = [ob EXCEPT !.lz[z].ninit = @ + 1, !.lzmine[t] = r.ninit, !.lzw[t] = Clk(me, t)]
             /\ sub' = [sub EXCEPT ![t] = "lzinit"]
             /\ LzBase(t, me) /\ NoRet /\ UNCHANGED pc
   ELSE /\ sub[t] = "lzinit"
@@ -587,10 +599,18 @@ LzGetRacy(t, ins, me) ==
        /\ IF r.id # -1
           THEN /\ ob' = [ob EXCEPT !.lz[z].lost = @ + 1, !.lzmine[t] = -1]       \* lost the race: own instance dropped
                /\ LzBase(t, AcqV(me, r.view)) /\ Ret(t, r.id)
-          ELSE /\ ob' = [ob EXCEPT !.lz[z].id = ob.lzmine[t], !.lz[z].view = me.cur, !.lzmine[t] = -1]
+          ELSE /\ ob' = [ob EXCEPT !.lz[z].id = ob.lzmine[t], !.lz[z].view = me.cur, !.lzmine[t] = -1,
+                                   !.lz[z].wt = t, !.lz[z].wclk = ob.lzw[t]]
                /\ LzBase(t, me) /\ Ret(t, ob.lzmine[t])
        /\ Adv(t) /\ NoRace /\ UNCHANGED cells
 LzGet(t, ins, me) == IF ins.k = "yield" THEN LzGetRacy(t, ins, me) ELSE LzGetSimple(t, ins, me)
+\* read the cell that lives inside the published instance (written by its initialiser) through the
+\* reference obtained by the preceding get: ordered after that write iff the get handed over the
+\* publisher's view
+LzRead(t, ins, me) ==
+  LET r == ob.lz[ins.o] IN
+  /\ IF r.wt # 0 /\ r.wt # t /\ r.wclk > me.cur.vc[r.wt] THEN Race ELSE NoRace
+  /\ SetMe(t, me) /\ NoRet /\ Adv(t) /\ UnchMem /\ UNCHANGED <<scv, ob, sub, st, ash, cells>>
 
 (* -------------------------------------------------------------- futures *)
 \* future::block_on of a hand-written future over AtomicWaker ins.o and flag ins.o2:
@@ -643,7 +663,7 @@ AwWake(t, ins, me) ==
   IF sub[t] = ""
   THEN /\ ob' = IF u = 0 THEN [ob EXCEPT !.awv[w] = JoinV(@, me1.cur)]
                 ELSE [ob EXCEPT !.aw[w] = 0, !.awv[w] = JoinV(@, me1.cur),
-                                !.bon[u].flag = TRUE, !.bon[u].view = JoinV(@, me1.cur)]
+                                !.bon[u].flag = TRUE, !.bon[u].view = IF Strong THEN JoinV(@, me1.cur) ELSE me1.cur]
        /\ sub' = [sub EXCEPT ![t] = "wk"]
        /\ SetMe(t, me1) /\ NoRet /\ NoRace /\ UnchMem /\ UnchRace /\ UNCHANGED <<pc, scv, st>>
   ELSE /\ sub' = [sub EXCEPT ![t] = ""]
@@ -672,6 +692,7 @@ Do(t, ins, me) ==
     [] ins.op = "uld"      -> UnsyncLoad(t, ins, me)
     [] ins.op = "rd"       -> Rd(t, ins, me)
     [] ins.op = "wr"       -> Wr(t, ins, me)
+    [] ins.op \in {"wrrd", "rdwr"} -> NestedCell(t, ins, me)
     [] ins.op = "spawn"    -> Spawn(t, ins, me)
     [] ins.op = "join"     -> Join(t, ins, me)
     [] ins.op = "yield"    -> Yield(t, ins, me)
@@ -709,6 +730,7 @@ Do(t, ins, me) ==
     [] ins.op = "tlwith"   -> TlWith(t, ins, me)
     [] ins.op = "tlnest"   -> TlNest(t, ins, me)
     [] ins.op = "lzget"    -> LzGet(t, ins, me)
+    [] ins.op = "lzread"   -> LzRead(t, ins, me)
     [] ins.op = "blockon"  -> BlockOn(t, ins, me)
     [] ins.op = "wake"     -> AwWake(t, ins, me)
     [] ins.op = "br"       -> Br(t, ins, me)
@@ -736,7 +758,7 @@ CanStep(t) ==
        [] ins.op = "nwait"  -> ob.ntf[ins.o].flag     \* a spurious return is possible but never guaranteed:
                                                       \* a state that needs one to make progress is a deadlock
        [] ins.op = "recv"   -> ob.ch[ins.o].q # <<>>
-       [] ins.op = "await"  -> AwaitReadable(Tick(t), ins.o) # {}
+       [] ins.op = "await"  -> AwaitReadable(Tick(t), ins) # {}
        [] ins.op = "blockon" -> sub[t] # "bo_wait" \/ ob.bon[t].flag
        [] OTHER -> TRUE
 
@@ -756,9 +778,9 @@ EndKinds    == IF end # "run" THEN {end}
 \* is dropped with its thread, every constructed lazy instance is dropped by the end of the iteration)
 Stat == [tl |-> [k \in P.tls |-> ob.tli[k]], lz |-> [z \in P.lzs |-> ob.lz[z].ninit]]
 Outcome(k)  == [p |-> pid, end |-> k,
-                stat |-> IF k \in {"race", "deadlock", "panic"} THEN <<>> ELSE Stat,
-                regs |-> IF k \in {"race", "deadlock", "panic"} THEN <<>> ELSE regs,
-                drops |-> IF k \in {"race", "deadlock", "panic"} THEN <<>> ELSE [a \in P.arcs |-> ob.arc[a].drops]]
+                stat |-> IF k \in {"race", "deadlock", "panic", "usage"} THEN <<>> ELSE Stat,
+                regs |-> IF k \in {"race", "deadlock", "panic", "usage"} THEN <<>> ELSE regs,
+                drops |-> IF k \in {"race", "deadlock", "panic", "usage"} THEN <<>> ELSE [a \in P.arcs |-> ob.arc[a].drops]]
 
 \* collapse a terminal state so that TLC sees one state per distinct outcome
 Finish == /\ Terminal
